@@ -66,3 +66,28 @@ def m_iff(I, ctx, args, kwargs, node):
 @models.model(ghost.close)
 def m_close(I, ctx, args, kwargs, node):
     return I.eq(args[0], args[1], ctx)
+
+
+@models.model(ghost.appended)
+def m_appended(I, ctx, args, kwargs, node):
+    a, ha = models.content(I, ctx, args[0])
+    b, hb = models.content(I, ctx, args[1])
+    if isinstance(b, Choice) and all(isinstance(x, TailSeq) for _, x in b.alts):
+        from .core import mk_choice
+        outs = []
+        for g, x in b.alts:
+            if a.prefix != x.prefix or len(x.items) < len(a.items):
+                outs.append((g, None))
+            else:
+                outs.append((g, tuple(models.wrap(y, hb, ctx) for y in x.items[len(a.items):])))
+        return mk_choice(outs)
+    if isinstance(a, TailSeq) and isinstance(b, TailSeq):
+        if a.prefix != b.prefix or len(b.items) < len(a.items):
+            return None
+        same = And_(*[I.eq(models.wrap(x, ha, ctx), models.wrap(y, hb, ctx), ctx) for x, y in zip(a.items, b.items)])
+        rest = tuple(models.wrap(y, hb, ctx) for y in b.items[len(a.items):])
+        if concrete_bool(same) is True:
+            return rest
+        from .core import mk_choice
+        return mk_choice([(same, rest), (Not_(same), None)])
+    raise PyvcUnsupported('appended() on lists that are not append-only logs')
